@@ -18,7 +18,7 @@ func init() { props["C18"] = genC18 }
 
 var runStart = func() m.T { n := time.Now(); return m.T{Sec: n.Unix(), Nsec: 0} }()
 
-var idU = []uint64{1, 2, 3}
+var idU = []uint64{0, 1, 2, 3} // 0 is the zero value a pre-sized, badly filled list would contain
 var hdU = []string{"a.com", "b.org", ""}
 
 // durOfSecs mirrors nothing: it is computed by the library itself below.
